@@ -129,6 +129,9 @@ impl<Meta> Archive<Meta> {
             return Err(ArchiveError::Corrupt("invalid magic").into())
         }
         let meta = ArchiveMeta::read(&mut file)?;
+        if meta.bucket_count == 0 {
+            return Err(ArchiveError::Corrupt("no buckets").into())
+        }
 
         Ok(Self {
             file: Storage::new(file, writable)?,
@@ -153,9 +156,11 @@ impl<Meta> Archive<Meta> {
 
         // Step 1. Go over each index bucket and collect all the objects.
         // Check that the name hashes correctly.
+        let mut guard = ChainGuard::new(&self.file);
         for idx in 0.. usize_to_u64(self.meta.bucket_count) {
             let mut start = self.get_index(idx)?;
             while let Some(pos) = start {
+                guard.step()?;
                 let (header, name) = ObjectHeader::read_with_name(
                     &self.file, pos.into()
                 )?;
@@ -173,8 +178,10 @@ impl<Meta> Archive<Meta> {
         }
 
         // Step 2. Go over the empty space.
+        let mut guard = ChainGuard::new(&self.file);
         let mut start = self.get_empty_index()?;
         while let Some(pos) = start {
+            guard.step()?;
             let header = ObjectHeader::read(&self.file, pos.into())?;
             objects.push((u64::from(pos), header.size));
             stats.empty_count += 1;
@@ -479,7 +486,9 @@ impl<Meta: ObjectMeta> Archive<Meta> {
         }
 
         // We are further down the chain.
+        let mut guard = ChainGuard::new(&self.file);
         while let Some(pos) = curr {
+            guard.step()?;
             let header = ObjectHeader::read(&self.file, pos.into())?;
             if header.next == start {
                 ObjectHeader::update_next(pos.into(), next, &mut self.file)?;
@@ -498,7 +507,9 @@ impl<Meta: ObjectMeta> Archive<Meta> {
     ) -> Result<Option<FoundObject>, ArchiveError> {
         let mut start = self.get_index(hash)?;
         let mut prev = None;
+        let mut guard = ChainGuard::new(&self.file);
         while let Some(pos) = start {
+            guard.step()?;
             let (header, object_name) = ObjectHeader::read_with_name(
                 &self.file, pos.into()
             )?;
@@ -528,7 +539,9 @@ impl<Meta: ObjectMeta> Archive<Meta> {
         }
         let size = Self::page_object_size(name, data);
         let mut candidates = Vec::new();
+        let mut guard = ChainGuard::new(&self.file);
         while let Some(pos) = start {
+            guard.step()?;
             let header = ObjectHeader::read(&self.file, pos.into())?;
             start = header.next;
             if Self::fits(header.size, size) {
@@ -808,6 +821,9 @@ pub struct ObjectsIter<'a, Meta> {
 
     /// The next item in the currently visited bucket.
     next: Option<NonZeroU64>,
+
+    /// The guard against loops in the bucket chains.
+    guard: ChainGuard,
 }
 
 impl<'a, Meta> ObjectsIter<'a, Meta> {
@@ -817,6 +833,7 @@ impl<'a, Meta> ObjectsIter<'a, Meta> {
             archive,
             buckets: 1..usize_to_u64(archive.meta.bucket_count),
             next: archive.get_index(0)?,
+            guard: ChainGuard::new(&archive.file),
         })
     }
 }
@@ -832,6 +849,7 @@ impl<'a, Meta: ObjectMeta> ObjectsIter<'a, Meta> {
     ) -> Result<Option<(Cow<'a, [u8]>, Meta, Cow<'a, [u8]>)>, ArchiveError> {
         loop {
             if let Some(pos) = self.next {
+                self.guard.step()?;
                 let (next, res) = self.archive.file.read(pos.into(), |read| {
                     let header = ObjectHeader::read_from(read)?;
                     let name = read.read_slice(header.name_len)?;
@@ -1078,6 +1096,38 @@ impl ObjectHeader {
           start + Self::SIZE
         + usize_to_u64(Meta::SIZE)
         + usize_to_u64(self.name_len)
+    }
+}
+
+
+//------------ ChainGuard ----------------------------------------------------
+
+/// A guard against loops in the chains of objects.
+///
+/// Corrupt next pointers can make a chain of objects run in circles.
+/// Since there cannot be more objects than fit into the archive, the guard
+/// counts the steps taken and errors out once there are too many.
+#[derive(Clone, Copy, Debug)]
+struct ChainGuard {
+    /// The number of steps still allowed.
+    left: u64,
+}
+
+impl ChainGuard {
+    /// Creates a new guard for the given storage.
+    fn new(storage: &Storage) -> Self {
+        Self { left: storage.size / ObjectHeader::SIZE + 1 }
+    }
+
+    /// Registers a step along a chain.
+    fn step(&mut self) -> Result<(), ArchiveError> {
+        match self.left.checked_sub(1) {
+            Some(left) => {
+                self.left = left;
+                Ok(())
+            }
+            None => Err(ArchiveError::Corrupt("loop in object chain"))
+        }
     }
 }
 
